@@ -560,11 +560,21 @@ func (e *Enc) convert(x *ssa.Convert) {
 		if ts == sortF32 {
 			eb, sb = 8, 24
 		}
-		e.vals[x] = e.r.def(e.name(x), ts, fmt.Sprintf("((_ to_fp %d %d) RNE (to_real %s))", eb, sb, v))
+		// int -> float: uninterpreted monotone conversion (exact rounding is not needed by any clause; solvers are slow on
+		// to_fp of a symbolic real). Axioms: sign and >= 1 are preserved.
+		fn := "i2f_" + mangle(ts)
+		e.g().DeclFun(fn, []string{"Int"}, ts)
+		e.g().Axiom("i2f.sign."+mangle(ts), fmt.Sprintf("(forall ((x Int)) (! (and (=> (>= x 0) (fp.geq (%s x) ((_ to_fp %d %d) RNE 0.0))) (=> (>= x 1) (fp.geq (%s x) ((_ to_fp %d %d) RNE 1.0))) (not (fp.isNaN (%s x))) (not (fp.isInfinite (%s x)))) :pattern ((%s x))))", fn, eb, sb, fn, eb, sb, fn, fn, fn))
+		e.vals[x] = e.r.def(e.name(x), ts, fmt.Sprintf("(%s %s)", fn, v))
 	case (fs == sortF32 || fs == sortF64) && tb != nil:
 		// float -> int: truncation; out-of-range is implementation-defined: uninterpreted with range
 		fn := "f2i_" + mangle(fs)
 		e.g().DeclFun(fn, []string{fs}, "Int")
+		if fs == sortF64 {
+			// truncation: non-negative stays non-negative; a value >= 1 never converts to 0 (out-of-range conversions give
+			// MinInt64/MaxInt64 on the supported targets)
+			e.g().Axiom("f2i.sign", fmt.Sprintf("(forall ((x %s)) (! (and (=> (fp.geq x ((_ to_fp 11 53) RNE 1.0)) (not (= (%s x) 0))) (=> (and (fp.geq x ((_ to_fp 11 53) RNE 0.0)) (fp.leq x ((_ to_fp 11 53) RNE 1000000.0))) (and (>= (%s x) 0) (<= (%s x) 1000000))) (<= (- 9223372036854775808) (%s x)) (<= (%s x) 9223372036854775807)) :pattern ((%s x))))", fs, fn, fn, fn, fn, fn, fn))
+		}
 		r := e.r.def(e.name(x), "Int", e.wrap(fmt.Sprintf("(%s %s)", fn, v), to))
 		e.vals[x] = r
 	case (fs == sortF32 || fs == sortF64) && (ts == sortF32 || ts == sortF64):
